@@ -42,6 +42,8 @@ class Unit:
         self.tags = {}         # fnpath -> set(props)   (which properties claim this function)
         self.vcpath = None
         self.outside = []      # raw Rust emitted after the verus! block (Display impls etc.)
+        self.sqlmap = {}       # (fnpath, ordinal) -> dict(stub, sha): R7
+        self.sqlseen = []      # what R7 found: dict(fn, n, stub, sha, sql)
 
 
 def vctag(u, line):
@@ -175,6 +177,8 @@ def parse_vc(path):
             if not m:
                 raise SystemExit("%s:%d: bad hint" % (path, ln))
             cur = dict(kind="hint", fn=m.group(1), where=m.group(2), anchor=m.group(3), nth=int(m.group(4) or 1), plus=int(m.group(5) or 0), line=ln)
+        elif d == "sql":
+            u.sqlmap[(parts[1], int(parts[2]))] = dict(stub=parts[3], sha=parts[4] if len(parts) > 4 else None, line=ln)
         elif d == "closure":
             m = re.match(r'@@\s*closure\s+(\S+)\s+"(.*)"(?:\s+#(\d+))?\s*$', raw)
             if not m:
@@ -595,6 +599,152 @@ def desugar_map_collect(text, log, where):
         log.append(("R17", where, "iter().map(..).collect() over %s desugared into a loop" % recv))
 
 
+def desugar_let_chains(text, log, where):
+    """R3: `if let P1 = E1 && let P2 = E2 && C { B }` without else -> nested if-let / if (equivalent)."""
+    while True:
+        toks = lex(text)
+        hit = None
+        for i, t in enumerate(toks):
+            if not (t.kind == "id" and t.text == "if"):
+                continue
+            # condition runs to the '{' at depth 0
+            j = i + 1
+            ands = []
+            has_let = False
+            while j < len(toks) and not (toks[j].kind == "p" and toks[j].text == "{"):
+                if toks[j].kind == "p" and toks[j].text in OPEN:
+                    j = match_close(toks, j) + 1
+                    continue
+                if toks[j].text == "&&":
+                    ands.append(j)
+                if toks[j].kind == "id" and toks[j].text == "let":
+                    has_let = True
+                j += 1
+            if j >= len(toks) or not ands or not has_let:
+                continue
+            # only chains where some segment after a && starts with let, or first is let
+            segs = []
+            prev = i + 1
+            for a in ands + [j]:
+                segs.append((prev, a))
+                prev = a + 1
+            if not any(toks[a].text == "let" for (a, b) in segs):
+                continue
+            bclose = match_close(toks, j)
+            if bclose + 1 < len(toks) and toks[bclose + 1].text == "else":
+                raise Lost("let-chain with else in %s is not supported (R3)" % where)
+            hit = (i, segs, j, bclose)
+            break
+        if hit is None:
+            return text
+        i, segs, j, bclose = hit
+        body = text[toks[j].start:toks[bclose].end]
+        conds = [text[toks[a].start:toks[b - 1].end] for (a, b) in segs]
+        out = body
+        for c in reversed(conds):
+            out = "if %s %s" % (c, out) if out is body else "if %s {\n%s\n}" % (c, out)
+        text = text[:toks[i].start] + out + text[toks[bclose].end:]
+        log.append(("R3", where, "let-chain of %d conditions desugared" % len(conds)))
+
+
+def rewrite_sql(u, fnpath, text, log):
+    """R7: self.conn.query_row(<lit>, params![a..], <closure>)[.optional()|.or_else(map_no_row_to_none)] and
+    self.conn.execute(<lit>, params![a..]) -> self.<stub>(a..); the stub (assumed contract, validated by engine B)
+    is chosen by (function, ordinal) from the `@@ sql` table; the literal's hash is recorded."""
+    import hashlib
+    n = 0
+    while True:
+        toks = lex(text)
+        hit = None
+        for i in range(len(toks) - 6):
+            if toks[i].text == "self" and toks[i + 1].text == "." and toks[i + 2].text == "conn" and toks[i + 3].text == "." \
+                    and toks[i + 4].text in ("query_row", "execute") and toks[i + 5].text == "(":
+                hit = i
+                break
+        hitb = None
+        for i in range(len(toks) - 6):
+            if toks[i].text == "self" and toks[i + 1].text == "." and toks[i + 2].text == "conn" and toks[i + 3].text == "." \
+                    and toks[i + 4].text == "prepare_cached" and toks[i + 5].text == "(":
+                hitb = i
+                break
+        if hit is None and hitb is None:
+            return text
+        if hitb is not None and (hit is None or hitb < hit):
+            # R7b: self.conn.prepare_cached(<lit>) ... .query_map(params![..], <closure>) ... .collect::<..>() [.map_err(..)]
+            i = hitb
+            n += 1
+            close = match_close(toks, i + 5)
+            lit = split_args(text[toks[i + 5].end:toks[close].start])[0]
+            sha = hashlib.sha256(re.sub(r"\s+", " ", lit).encode()).hexdigest()[:12]
+            # walk the method chain
+            j = close + 1
+            params = None
+            end = None
+            while j + 2 < len(toks) and toks[j].text in (".", "?"):
+                if toks[j].text == "?":
+                    j += 1
+                    continue
+                name = toks[j + 1].text
+                k = j + 2
+                if toks[k].text == "::":
+                    while toks[k].text != "(":
+                        k += 1
+                if toks[k].text != "(":
+                    break
+                kc = match_close(toks, k)
+                if name == "query_map":
+                    qa = split_args(text[toks[k].end:toks[kc].start])
+                    m = re.match(r"^\s*rusqlite::params!\s*\[(.*)\]\s*$", qa[0], re.S)
+                    params = split_args(m.group(1)) if m else []
+                if name == "collect":
+                    end = kc
+                    # absorb one following .map_err(..)
+                    if kc + 3 < len(toks) and toks[kc + 1].text == "." and toks[kc + 2].text == "map_err" and toks[kc + 3].text == "(":
+                        end = match_close(toks, kc + 3)
+                    break
+                j = kc + 1
+            if end is None or params is None:
+                raise Lost("unrecognised prepare_cached/query_map chain in %s statement #%d" % (fnpath, n))
+            ent = u.sqlmap.get((fnpath, n))
+            if ent is None:
+                raise Lost("SQL statement #%d in %s has no `@@ sql` entry" % (n, fnpath))
+            u.sqlseen.append(dict(fn=fnpath, n=n, stub=ent["stub"], sha=sha, pinned=ent["sha"], sql=re.sub(r"\s+", " ", lit)[:200], suffix=".query_map(..).collect()"))
+            text = text[:toks[i].start] + "self.%s(%s)" % (ent["stub"], ", ".join(params)) + text[toks[end].end:]
+            log.append(("R7", fnpath, "SQL #%d (prepare_cached/query_map/collect) -> %s sha=%s" % (n, ent["stub"], sha)))
+            continue
+        i = hit
+        n += 1
+        close = match_close(toks, i + 5)
+        inner = text[toks[i + 5].end:toks[close].start]
+        args = split_args(inner)
+        lit = args[0]
+        sha = hashlib.sha256(re.sub(r"\s+", " ", lit).encode()).hexdigest()[:12]
+        params = []
+        m = re.match(r"^\s*rusqlite::params!\s*\[(.*)\]\s*$", args[1], re.S) if len(args) > 1 else None
+        if m:
+            params = split_args(m.group(1))
+        elif len(args) > 1 and args[1].strip() not in ("[]", "()"):
+            raise Lost("unrecognised SQL parameter list in %s statement #%d" % (fnpath, n))
+        end = close
+        # optional suffix
+        suffix = ""
+        if end + 4 < len(toks) and toks[end + 1].text == "." and toks[end + 2].text == "optional" and toks[end + 3].text == "(" and toks[end + 4].text == ")":
+            end = end + 4
+            suffix = ".optional()"
+        elif end + 3 < len(toks) and toks[end + 1].text == "." and toks[end + 2].text == "or_else" and toks[end + 3].text == "(":
+            c2 = match_close(toks, end + 3)
+            if "map_no_row_to_none" in text[toks[end + 3].start:toks[c2].end]:
+                end = c2
+                suffix = ".or_else(map_no_row_to_none)"
+        ent = u.sqlmap.get((fnpath, n))
+        if ent is None:
+            raise Lost("SQL statement #%d in %s has no `@@ sql` entry" % (n, fnpath))
+        u.sqlseen.append(dict(fn=fnpath, n=n, stub=ent["stub"], sha=sha, pinned=ent["sha"], sql=re.sub(r"\s+", " ", lit)[:200], suffix=suffix))
+        repl = "self.%s(%s)" % (ent["stub"], ", ".join(params))
+        text = text[:toks[i].start] + repl + text[toks[end].end:]
+        log.append(("R7", fnpath, "SQL #%d -> %s%s sha=%s%s" % (n, ent["stub"], suffix, sha, "" if ent["sha"] in (None, sha) else " (CHANGED since pinned %s)" % ent["sha"])))
+
+
 def annotate_closures(u, fnpath, text, log):
     """R13: give a closure an explicit Verus header (parameter types, requires/ensures); the body is
     kept verbatim (wrapped in a block when it is a bare expression)."""
@@ -655,6 +805,10 @@ def process_fn(u, fnpath, text, log, origin, canary=None):
     text = rewrite_splice(text, log, fnpath)
     if settings.get("mapcollect") == "loop":
         text = desugar_map_collect(text, log, fnpath)
+    if u.sqlmap:
+        text = rewrite_sql(u, fnpath, text, log)
+    if settings.get("letchains") == "nest":
+        text = desugar_let_chains(text, log, fnpath)
     text = apply_substs(u, fnpath, text, log)
     text = name_wildcard_closure_params(text, log, fnpath)
     # hints first: every anchor is resolved on the text as extracted (before any hint is
@@ -1014,6 +1168,7 @@ def assemble(unit_name, outdir, repo=REPO):
                 rewrites=[list(x) for x in a.log], assumptions=scan_assumptions(text),
                 hint_assumes=["%s:%d" % (u.vcpath, h["line"]) for h in hint_assumes],
                 tags={k: sorted(v) for k, v in u.tags.items()},
+                sql=u.sqlseen,
                 sources=u.sources)
     json.dump(meta, open(os.path.join(outdir, u.name + ".map.json"), "w"), indent=1)
     return rs, meta
